@@ -637,6 +637,33 @@ Proof.
   clear -Hf. induction Hf as [|r x rows xs [_ (c & _ & Hc)] _ IH]; intros r' [ ]; subst; [rewrite Hc; apply Rabs_pos | apply IH; assumption].
 Qed.
 
+(* ---------- declared numbers ---------- *)
+Lemma assoc_app_fresh {A} (l : list (key * A)) k a :
+  Kernel.assoc l k = None -> Kernel.assoc (l ++ [(k, a)]) k = Some a.
+Proof.
+  induction l as [|[k' a'] l IH]; simpl; intros H.
+  - rewrite keqb_refl. reflexivity.
+  - destruct (keqb k k'); [discriminate | apply IH; exact H].
+Qed.
+
+Lemma Reqb_refl x : Reqb x x = true.
+Proof. unfold Reqb. destruct (Req_EM_T x x); [reflexivity | contradiction]. Qed.
+
+(* what Kernel.elementary (UncertainReal._elementary) returns satisfies Budget.decl_ok: the new
+   leaf with its standard uncertainty -- zero included -- is the single entry of the
+   independent or of the dependent vector *)
+Theorem elementary_decl_ok (s : state) x u df lb indep s' (o : ureal) :
+  Kernel.assoc (s_leaves s) (s_ctx s, (s_ne s + 1)%Z) = None ->
+  elementary RNum s x u df lb indep = Ok (s', o) -> decl_ok RNum s' o = true.
+Proof.
+  intros Hf H. unfold elementary in H.
+  destruct df as [| |d]; try discriminate;
+    repeat match type of H with (if ?c then _ else _) = _ => destruct c; try discriminate end;
+    injection H as <- <-; unfold decl_ok, leaf_of; destruct indep; cbn [unode uc dc ic s_leaves];
+    rewrite (assoc_app_fresh _ _ _ Hf); cbn [l_indep l_u vec_eqb andb same RNum];
+    rewrite ?keqb_refl, ?Reqb_refl; reflexivity.
+Qed.
+
 (* ====================================================================================== *)
 (* Part 3: over the reals -- the complex budget under the pairing invariant               *)
 (* ====================================================================================== *)
